@@ -482,6 +482,29 @@ pub unsafe extern "C" fn unlink(path: *const c_char) -> c_int {
     )
 }
 
+extern "C" {
+    fn dlsym(handle: *mut c_void, symbol: *const c_char) -> *mut c_void;
+}
+
+/// read_dir of the log directory (std uses opendir): logged, so that a directory listing
+/// taken before the lock is visible.
+#[no_mangle]
+pub unsafe extern "C" fn opendir(path: *const c_char) -> *mut libc::DIR {
+    type F = unsafe extern "C" fn(*const c_char) -> *mut libc::DIR;
+    // RTLD_NEXT = -1
+    let real = dlsym(-1isize as *mut c_void, b"opendir\0".as_ptr() as *const c_char);
+    let f: F = std::mem::transmute(real);
+    let p = CStr::from_ptr(path).to_string_lossy().to_string();
+    let is_dir = {
+        let g = CTL.lock().unwrap();
+        g.as_ref().map(|c| c.enabled && p == c.dir).unwrap_or(false)
+    };
+    if is_dir {
+        event_done(format!("{} listdir", role()), false);
+    }
+    f(path)
+}
+
 #[no_mangle]
 pub unsafe extern "C" fn flock(fd: c_int, op: c_int) -> c_int {
     let raw = || libc::syscall(libc::SYS_flock, fd, op) as c_int;
